@@ -51,6 +51,8 @@ class FloatNode(BaseNode, SelectNode):
         if self.value_expr: # Process expression
             with NumericalSolver(env) as s:
                 self.value_raw = s.solve(self.value_expr, self.units_raw)
+                if not self.units_raw and hasattr(self.value_raw, 'baseunits'):
+                    self.value_raw = self.value_raw.value('1')  # node without units: the result must be a pure number
         # Testing validity of units
         if self.units_raw:
             with UnitEnvironment(env.units):
